@@ -1,5 +1,6 @@
 import GV.Model.Threshold
 import Mathlib.Analysis.SpecialFunctions.Pow.Real
+import GV.Proofs.ThresholdCert
 /-!
 C37 — The leadership threshold is the exact floor of the Praos formula.
 
@@ -356,6 +357,31 @@ theorem certified_output_correct (i : Input) (a b n m U T : ℕ) (hden : 0 < i.f
     (T : ℤ) = Tspec U (sigmaR i) (fR i) := by
   obtain ⟨_, hb, hm, e1, e2⟩ := guards_general_sound i a b n m U hden hg
   have := certOK_sound a b n m U T hb hm hc
+  rw [e2] at this
+  have e3 : (1:ℝ) - (a:ℝ) / b = fR i := by rw [e1]; ring
+  rw [e3] at this
+  exact this
+
+/-! ### the rational certificate (any denominator) -/
+
+/-- **Soundness of the rational certificate**: if `ThresholdCert.check a b n m U T c` holds then `T`
+    is the Praos formula at 1 − f = a/b, σ = n/m — with no bound on m. -/
+theorem ratcert_sound (a b n m U T : ℕ) (c : GV.Model.ThresholdCert.Cert)
+    (h : GV.Model.ThresholdCert.check a b n m U T c = true) :
+    (T : ℤ) = Tspec U ((n : ℝ) / m) (1 - (a : ℝ) / b) := by
+  have := GV.Proofs.ThresholdCert.check_sound a b n m U T c h
+  unfold Tspec
+  have e : (1:ℝ) - (1 - (a:ℝ) / b) = (a:ℝ) / b := by ring
+  rw [e]; exact this
+
+/-- end to end: after the guard ladder, an output accepted by the rational checker is the formula
+    at the caller's f and σ -/
+theorem ratcert_output_correct (i : Input) (a b n m U T : ℕ) (c : GV.Model.ThresholdCert.Cert)
+    (hden : 0 < i.fDen) (hg : guards i = .general a b n m U)
+    (hc : GV.Model.ThresholdCert.check a b n m U T c = true) :
+    (T : ℤ) = Tspec U (sigmaR i) (fR i) := by
+  obtain ⟨_, _, _, e1, e2⟩ := guards_general_sound i a b n m U hden hg
+  have := ratcert_sound a b n m U T c hc
   rw [e2] at this
   have e3 : (1:ℝ) - (a:ℝ) / b = fR i := by rw [e1]; ring
   rw [e3] at this
